@@ -189,7 +189,14 @@ func (db *SingleBucketBackend) getBucketWithArbitraryPrefixLocked(bucket string,
 		}
 
 		objectPath := filepath.ToSlash(path)
-		if !prefix.Match(objectPath, nil) {
+		var match gofakes3.PrefixMatch
+		if !prefix.Match(objectPath, &match) {
+			return nil
+		}
+		if match.CommonPrefix {
+			// The delimiter is not "/" (that one is served from the directory
+			// tree): keys are grouped by it all the same.
+			response.AddPrefix(match.MatchedPart)
 			return nil
 		}
 
@@ -217,6 +224,9 @@ func (db *SingleBucketBackend) getBucketWithArbitraryPrefixLocked(bucket string,
 	// keys ('a/b' would come before 'a-b'); S3 lists keys in byte order.
 	sort.Slice(response.Contents, func(i, j int) bool {
 		return response.Contents[i].Key < response.Contents[j].Key
+	})
+	sort.Slice(response.CommonPrefixes, func(i, j int) bool {
+		return response.CommonPrefixes[i].Prefix < response.CommonPrefixes[j].Prefix
 	})
 
 	return response, nil
